@@ -162,3 +162,18 @@ package gpbft
 //@ pred ssumDef(sp []int64, bf bitfield.BitField) = ssum(sp, bf, 0) == 0
 //@     && forall(k, 0, bfCount(bf), ssum(sp, bf, k+1) == ssum(sp, bf, k) + sp[bfBit(bf, k)], trigger(bfBit(bf, k)))
 
+
+// C18 relies on AllPrefixes returning one chain per prefix length, sharing the tipsets of the receiver, with the key
+// cache of prefix i filled from entry i of the batch tree over the tipsets' signing encodings.
+//@ func (*ECChain).AllPrefixes
+//@   property C18
+//@   modifies auto
+//@   maypanic
+//@   ensures[one_prefix_per_length] c != nil && len(c.TipSets) > 0 ==> len(result) == len(c.TipSets)
+//@   ensures[prefix_i_has_the_first_i_plus_1_tipsets] c != nil ==> forall(j, 0, len(result), result[j] != nil && len(result[j].TipSets) == j + 1 && forall(k, 0, j + 1, result[j].TipSets[k] == c.TipSets[k]))
+//@   ensures[the_zero_chain_has_no_prefixes] c == nil || len(c.TipSets) == 0 ==> len(result) == 0
+//@   loop 1
+//@     invariant len(values) == len(c.TipSets)
+//@   loop 2
+//@     invariant len(res) == len(c.TipSets) && c.TipSets == old(c.TipSets) && len(batch) == len(c.TipSets) && 0 <= i && i < len(c.TipSets)
+//@     invariant forall(j, 0, i, res[j] != nil && len(res[j].TipSets) == j + 1 && forall(k, 0, j + 1, res[j].TipSets[k] == c.TipSets[k]))
